@@ -109,10 +109,14 @@ func (c *subCtx) end(err error) {
 }
 
 type subState struct {
-	i       int
-	ctx     *subCtx
-	cancel  context.CancelFunc
-	expired bool // ended by its own deadline, not by cancel
+	i           int
+	ctx         *subCtx
+	cancel      context.CancelFunc
+	expired     bool          // ended by its own deadline, not by cancel
+	release     chan struct{} // closed by the "release" step / finish: a blocked handler continues
+	released    bool
+	blockedNow  bool     // its handler is blocked right now (the read goroutine of its connection stands still)
+	handlerActs []string // scripted handler behaviours that actually ran
 
 	started      bool
 	returned     bool
@@ -222,6 +226,7 @@ func newWorld(c Case, cc clientCfg) *world {
 	})
 	for i := range c.Subs {
 		st := &subState{i: i}
+		st.release = make(chan struct{})
 		st.ctx = newSubCtx(c.hasDeadline(i))
 		st.cancel = func() { st.ctx.end(context.Canceled) }
 		w.subs = append(w.subs, st)
@@ -231,7 +236,8 @@ func newWorld(c Case, cc clientCfg) *world {
 
 // close tears everything down; safe to call once.
 func (w *world) close() {
-	for _, st := range w.subs {
+	for i, st := range w.subs {
+		w.releaseHandler(i)
 		st.cancel()
 	}
 	w.stop()
@@ -251,7 +257,14 @@ func (w *world) close() {
 	w.srv.CloseClientConnections()
 	w.srv.Close()
 	w.tr.CloseIdleConnections()
-	w.wg.Wait()
+	// bounded: a client call that never returns (a wedged Subscribe under a broken tree) has been reported as
+	// a liveness violation already and must not wedge the harness too
+	done := make(chan struct{})
+	go func() { w.wg.Wait(); close(done) }()
+	select {
+	case <-done:
+	case <-time.After(watch):
+	}
 }
 
 // bump wakes every waiter; callers hold w.mu.
@@ -788,15 +801,70 @@ func (w *world) handler(i int) common.Handler {
 				}
 			}
 		}
+		on := w.c.Subs[i].On
 		w.mu.Lock()
 		st.msgs = append(st.msgs, g)
+		idx := len(st.msgs) - 1
 		if g.Type.IsTerminal() && st.endSeq == 0 {
 			w.seq++
 			st.endSeq = w.seq
 		}
+		act := ""
+		if on != nil && idx == on.At && !w.closing {
+			act = on.Act
+			st.handlerActs = append(st.handlerActs, act)
+			if act == "block" && !st.released {
+				st.blockedNow = true
+			}
+		}
 		w.bump()
 		w.mu.Unlock()
+		// scripted behaviour, synchronously on the client's delivering goroutine
+		switch act {
+		case "cancel-self":
+			w.endSub(i, true, false, true)
+		case "cancel-other":
+			if on.Other >= 0 && on.Other < len(w.subs) {
+				w.endSub(on.Other, true, false, true)
+			}
+		case "block":
+			<-st.release
+			w.mu.Lock()
+			st.blockedNow = false
+			w.bump()
+			w.mu.Unlock()
+		}
 	}
+}
+
+// releaseHandler lets a blocked handler of subscription i continue (idempotent).
+func (w *world) releaseHandler(i int) {
+	st := w.subs[i]
+	w.mu.Lock()
+	if !st.released {
+		st.released = true
+		close(st.release)
+	}
+	w.mu.Unlock()
+}
+
+// readerBlocked reports whether the delivery goroutine that serves subscription i stands still in
+// somebody's blocked handler: its own for sse, any subscription's on the same connection for websocket.
+// Callers hold w.mu.
+func (w *world) readerBlocked(i int) bool {
+	st := w.subs[i]
+	if st.blockedNow {
+		return true
+	}
+	if st.conn == nil {
+		return false
+	}
+	for _, j := range st.conn.ids {
+		if w.subs[j].blockedNow {
+			return true
+		}
+	}
+	return false
 }
 
 // start launches the Subscribe call of subscription i in its own goroutine.
@@ -820,16 +888,20 @@ func (w *world) start(i int) {
 		mine := err == nil && st.ctx.Err() != nil // cancelled while subscribing: the caller's AfterFunc fires at once
 		w.bump()
 		w.mu.Unlock()
-		if mine {
-			unsub()
-		}
 		if mine || err != nil {
-			w.mu.Lock()
-			if st.ctx.Err() != nil {
-				st.cancelDone = true
-			}
-			w.bump()
-			w.mu.Unlock()
+			// detached: a client that stalls an unsubscribe must show up as a missing cancelDone, not as a
+			// harness goroutine the teardown waits for
+			go func() {
+				if mine {
+					unsub()
+				}
+				w.mu.Lock()
+				if st.ctx.Err() != nil {
+					st.cancelDone = true
+				}
+				w.bump()
+				w.mu.Unlock()
+			}()
 		}
 	}()
 }
@@ -837,13 +909,16 @@ func (w *world) start(i int) {
 // cancelSub is what the production caller does when its client goes away: the context passed to
 // Subscribe is cancelled and the returned unsubscribe func is called (graphql_subscription_client.go
 // registers exactly that with context.AfterFunc).
-func (w *world) cancelSub(i int, byCase bool) { w.endSub(i, byCase, false) }
+func (w *world) cancelSub(i int, byCase bool) { w.endSub(i, byCase, false, false) }
 
 // expireSub ends subscription i through its own deadline: ctx.Err() becomes context.DeadlineExceeded. The
 // production caller reacts to that exactly as to a cancel (context.AfterFunc fires on either).
-func (w *world) expireSub(i int) { w.endSub(i, true, true) }
+func (w *world) expireSub(i int) { w.endSub(i, true, true, false) }
 
-func (w *world) endSub(i int, byCase, deadline bool) {
+// endSub ends subscription i. The unsubscribe func runs on a detached goroutine (cancelDone reports when
+// it returned) unless inHandler is set: a handler that cancels does so synchronously, on the client's
+// delivering goroutine - that is the whole point of that behaviour.
+func (w *world) endSub(i int, byCase, deadline, inHandler bool) {
 	st := w.subs[i]
 	w.mu.Lock()
 	if st.ctx.Err() != nil {
@@ -872,13 +947,20 @@ func (w *world) endSub(i int, byCase, deadline bool) {
 	ret, unsub, err := st.returned, st.unsub, st.err
 	w.mu.Unlock()
 	if ret {
-		if err == nil && unsub != nil {
-			unsub()
+		fin := func() {
+			if err == nil && unsub != nil {
+				unsub()
+			}
+			w.mu.Lock()
+			st.cancelDone = true
+			w.bump()
+			w.mu.Unlock()
 		}
-		w.mu.Lock()
-		st.cancelDone = true
-		w.bump()
-		w.mu.Unlock()
+		if inHandler {
+			fin()
+		} else {
+			go fin()
+		}
 	}
 }
 
